@@ -191,7 +191,7 @@ func ruleKind(c *Ctx) {
 					if ret, ok := rb.Instrs[len(rb.Instrs)-1].(*ssa.Return); ok {
 						rr := retResults(ret)
 						if len(rr) > 0 && !isNilConst(rr[len(rr)-1]) {
-							bad = ret.Pos()
+							bad = posOr(ret.Pos(), inf.Pos())
 						}
 					}
 				}
